@@ -28,7 +28,7 @@ Print Assumptions C06_mpsc_exactly_once.
 Theorem C06_mpsc_per_sender_order : forall s a, Reach s ->
   filter (from a) (sent s) = map (pair a) (seq 0 (sn (Sd s a))) /\
   exists k, k <= sn (Sd s a) /\ filter (from a) (rcvd s) = map (pair a) (seq 0 k).
-Proof. intros s a H. split; [exact (mpsc_sender_sequence s a H) | exact (mpsc_per_sender_order s a H)]. Qed.
+Proof. exact mpsc_per_sender_order_full. Qed.
 Print Assumptions C06_mpsc_per_sender_order.
 
 (* (ii) no lost wake-up *)
@@ -70,7 +70,7 @@ Print Assumptions C06_spsc_exactly_once.
 (* the sender pushed 0, 1, 2, ...; the receiver got 0 ... k-1 in this order *)
 Theorem C06_spsc_order : forall s, Reach true s ->
   sent s = seq 0 (sn (Sn s)) /\ exists k, k <= sn (Sn s) /\ rcvd s = seq 0 k.
-Proof. intros s H. split; [exact (spsc_sender_sequence s H) | exact (spsc_received_in_order s H)]. Qed.
+Proof. exact spsc_order_full. Qed.
 Print Assumptions C06_spsc_order.
 
 (* (ii) thread receiver *)
